@@ -211,7 +211,12 @@ func topLevelKeysChecked(rel string) string {
 			}
 		case *ast.CallExpr:
 			if isIdent(x.Fun, "checkTopLevelKeys") && len(x.Args) == 2 && len(fd.Type.Params.List) >= 2 {
-				res = "true"
+				// ... and the check folds keys the way encoding/json does (simple-fold orbit minimum)
+				if foldIsSimpleFoldOrbit(f) {
+					res = "true"
+				} else {
+					res = "false"
+				}
 			}
 		}
 		if res == "" {
@@ -402,6 +407,63 @@ func fixedByRowsCleanEOFOnly(rel string) string {
 		die("%s: readByRowsEnvelope: raw-error return not found", rel)
 	}
 	return res
+}
+
+// foldIsSimpleFoldOrbit: in checkTopLevelKeys the key under which a top level key is remembered is
+//   strings.Map(func(r rune) rune { for { r2 := unicode.SimpleFold(r); if r2 <= r { return r2 }; r = r2 } }, key)
+// i.e. the smallest rune of every rune's simple-fold orbit -- what encoding/json's key matching
+// amounts to.  Any other folding (strings.ToLower, strings.ToUpper, EqualFold on pairs, ...) is
+// not recognised and reported as false.
+func foldIsSimpleFoldOrbit(f *ast.File) bool {
+	fd := findFunc(f, "checkTopLevelKeys")
+	if fd == nil || fd.Body == nil {
+		return false
+	}
+	ok := false
+	ast.Inspect(fd.Body, func(n ast.Node) bool {
+		call, isCall := n.(*ast.CallExpr)
+		if !isCall || !isSel(call.Fun, "strings", "Map") || len(call.Args) != 2 {
+			return true
+		}
+		fl, isLit := call.Args[0].(*ast.FuncLit)
+		if !isLit || len(fl.Body.List) != 1 {
+			return true
+		}
+		loop, isFor := fl.Body.List[0].(*ast.ForStmt)
+		if !isFor || loop.Cond != nil || len(loop.Body.List) != 3 {
+			return true
+		}
+		// r2 := unicode.SimpleFold(r)
+		as, ok1 := loop.Body.List[0].(*ast.AssignStmt)
+		if !ok1 || len(as.Rhs) != 1 {
+			return true
+		}
+		c, ok2 := as.Rhs[0].(*ast.CallExpr)
+		if !ok2 || !isSel(c.Fun, "unicode", "SimpleFold") {
+			return true
+		}
+		// if r2 <= r { return r2 }
+		ifs, ok3 := loop.Body.List[1].(*ast.IfStmt)
+		if !ok3 {
+			return true
+		}
+		cond, ok4 := ifs.Cond.(*ast.BinaryExpr)
+		if !ok4 || cond.Op != token.LEQ || exprString(cond.X) != exprString(as.Lhs[0]) || len(ifs.Body.List) != 1 {
+			return true
+		}
+		ret, ok5 := ifs.Body.List[0].(*ast.ReturnStmt)
+		if !ok5 || len(ret.Results) != 1 || exprString(ret.Results[0]) != exprString(as.Lhs[0]) {
+			return true
+		}
+		// r = r2
+		as2, ok6 := loop.Body.List[2].(*ast.AssignStmt)
+		if !ok6 || len(as2.Lhs) != 1 || exprString(as2.Lhs[0]) != exprString(cond.Y) || exprString(as2.Rhs[0]) != exprString(as.Lhs[0]) {
+			return true
+		}
+		ok = true
+		return false
+	})
+	return ok
 }
 
 // schemaConst loads the JSON text of a compiled-in JSON-schema constant.
